@@ -1521,3 +1521,80 @@ def splits(n):
     finally:
         os.unlink(fn)
     return {"calls": out}
+
+
+# ------------------------------------------------------------------ Engine.tla binding: message-level traces of the real engine
+def engine_trace(text, queries, schedule=None):
+    """Ground `queries` (atom names, in order, on one target formula) with the default (buffered) engine and record
+    every message the main loop pops, projected on: kind, predicate / node kind, parent or target pointer, result node,
+    is_last.  `schedule`: list of permutations (lists of indices) applied, in order, to the batches of >= 2 sibling 'e'
+    messages (None = the engine's own order)."""
+    from problog.program import PrologString
+    from problog.engine_stack import StackBasedEngine, MessageFIFO
+    from problog.formula import LogicFormula
+    from problog.logic import Term
+    log = []
+    sched = list(schedule or [])
+    used = []
+    bad_schedule = []
+
+    class LoggingFIFO(MessageFIFO):
+        def __iadd__(self, messages):
+            messages = list(messages)
+            if len(messages) > 1 and all(m[0] == "e" for m in messages):
+                # `messages` is reversed(next_actions); a schedule entry is a 1-based permutation f of next_actions
+                # (Engine.tla: ord[i] = acts[f[i]], pushed reversed)
+                acts = list(reversed(messages))
+                perm = sched.pop(0) if sched else list(range(1, len(acts) + 1))
+                if sorted(perm) != list(range(1, len(acts) + 1)):
+                    perm = list(range(1, len(acts) + 1))
+                    bad_schedule.append(len(used))
+                messages = list(reversed([acts[i - 1] for i in perm]))
+                used.append(perm)
+            return MessageFIFO.__iadd__(self, messages)
+
+        def pop(self):
+            m = MessageFIFO.pop(self)
+            act, obj, args, context = m
+            if act == "e":
+                node = context["database"].get_node(obj)
+                kind = type(node).__name__
+                name = str(getattr(node, "functor", "")) if kind in ("define", "fact", "clause", "call", "choice") else ""
+                if kind == "neg":
+                    name = str(context["database"].get_node(node.child).functor)
+                log.append({"t": "e", "k": kind, "p": name, "a": -1 if context.get("parent") is None else context["parent"], "node": 0, "last": 0})
+            elif act == "r":
+                nd = args[1]
+                log.append({"t": "r", "k": "", "p": "", "a": -1 if obj is None else obj, "node": 1000000 if nd is None else int(nd), "last": 1 if args[3] else 0})
+            else:
+                log.append({"t": "c", "k": "", "p": "", "a": -1 if obj is None else obj, "node": 0, "last": 0})
+            return m
+
+    class Eng(StackBasedEngine):
+        def init_message_stack(self):
+            return LoggingFIFO(self)
+
+    eng = Eng()
+    db = eng.prepare(PrologString(text))
+    target = LogicFormula()
+    results = []
+    for q in queries:
+        log.append({"t": "q", "k": "", "p": q, "a": 0, "node": 0, "last": 0})
+        target = eng.ground(db, Term(q), target, label="query")
+        key = dict((str(n), k) for n, k in target.queries()).get(q, "absent")
+        results.append({"q": q, "key": 1000000 if key is None else (key if key != "absent" else -999)})
+    return {"log": log, "results": results, "nodes": _dump_nodes(target), "schedule_used": used, "bad_schedule": bad_schedule}
+
+
+def engine_traces(cases):
+    """batch form: cases = [{'id', 'text', 'queries', 'schedule'}]"""
+    out = []
+    for c in cases:
+        try:
+            r = engine_trace(c["text"], c["queries"], c.get("schedule"))
+            r["id"] = c["id"]
+        except Exception as e:
+            from .pl import err_info
+            r = dict(err_info(e), id=c["id"], crash=True)
+        out.append(r)
+    return {"results": out}
